@@ -52,7 +52,9 @@ class C13(Prop):
 
     def gen(self, seed, idx, tier):
         R = Rng(seed, "C13")
-        cfg = {"records_max": 8, "len_max": 3000, "isn_wrap": False, "seg_pct": 60, "quic_pct": 35, "quic": {}}
+        cfg = {"records_max": 8, "len_max": 3000, "isn_wrap": False, "seg_pct": 70, "quic_pct": 35,
+               "net": {"delay": 40, "lost_before": 25, "dup": 20, "dup_rto": 10, "_D": 3}, "net_pct": 50,
+               "quic": {"net": {"delay": 50, "dup": 30, "_D": 3}}}
         spec = gen.gen_mixed_world(R.fork("world"), cfg)
         spec["prop"] = "C13"
         return spec
